@@ -1,5 +1,42 @@
-import SemVerif.Spec.Preds
-import SemVerif.Inventory
-/-! # Property C03 — theorems (under construction) -/
+import SemVerif.Props.C06
+/-!
+# Property C03 — names resolve by lexical scoping and operands keep source order
+
+`C03`: on the model's result the output predicate reports nothing, for every program.  For an
+accepted program the resolution facts of every function's stack — each variable read, field read
+and assignment with the *index of the declaration* (`FunctionArg` / `LetBinding` instruction) that
+introduced the internal name it carries, each constant read, call, declaration and return, in stack
+order — are exactly those of the source under the independent lexical resolver of
+`Spec/Denote.lean` (`dlookup`: innermost enclosing block that declares the name, most recent
+declaration in it; the frame of an if-, else-, else-if- or loop-body is popped at its end; a `let`
+is entered after its initialiser; a constant only when no value is visible), in source evaluation
+order.  Projection (`DStmt.refs`) of the equation `C06_exact`, hence of `T2`.
+-/
 namespace SemVerif
+
+/-- **C03** — the output predicate of the property holds on the model's result for every program -/
+theorem C03 (p : Program) : P_C03 p (run p) = [] := by
+  unfold P_C03
+  split
+  · rfl
+  · rename_i h
+    have ha : (run p).accepted = true := by
+      cases hx : acceptedWF p (run p) with
+      | true => unfold acceptedWF at hx; simp only [Bool.and_eq_true] at hx; exact hx.1
+      | false => rw [hx] at h; simp at h
+    obtain ⟨hnp, he⟩ := (accepted_iff _).mp ha
+    exact cmpRendered_nil _ _ _ (denotePairs_eq p hnp he)
+
+/-- the scoping consequences named in the property, on the resolver: a declaration made inside a
+body is not visible after the body (the frame is popped), and an initialiser is resolved before its
+`let` is entered -/
+theorem resolver_pop (s : SpecSt) : (s.push.pop).dscope = s.dscope := rfl
+
+/-- non-vacuity: in `exampleT2` the `let x = x + K * 2` reads the parameter (declaration 0) and
+declares index 1; the call `g(x)` (an event, then the initialiser of `y`) and the final `return x`
+read declaration 1 -/
+example : ((specStmts true exampleT2.rglobals) <$> exampleT2.fnDecls).head?.map (fun l => l.flatMap DStmt.refs) =
+    some ["param:v0", "read:v0", "const:K", "let:v1", "read:v1", "call:g", "read:v1", "call:g", "let:v2", "read:v1", "return"] := by
+  decide +kernel
+
 end SemVerif
